@@ -182,3 +182,67 @@ def family(F, body, depth=3, stop=()):
             for nb in F.nested(cb):
                 work.append((nb, d + 1))
     return list(seen.values())
+
+
+def run_merge_table(F):
+    """Deep path table of `<Basic as Runner>::run` with the ingestion / execution routines opaque: per path what is handed
+    to them.  Returns (run body, paths, helpers) with helpers: cli_field(name) / builder_field(name) terms, the call
+    effects of insert_features / execute."""
+    from . import deep as D
+    runs = [b for adt, b in trait_impl_methods(F, r"runner::Runner$", "run") if adt == "runner::basic::Basic"]
+    if len(runs) != 1:
+        raise Unverifiable("Runner::run impl")
+    run = runs[0]
+    ex_fn = F.parent_body(execute(F))
+    ing_fn = F.parent_body(insert_features(F))
+    opq = "^(" + re.escape(ex_fn.name) + "|" + re.escape(ing_fn.name) + ")$"
+    paths = D.Deep(F, run, max_paths=4000, opaque=opq).run()
+    if not paths or any(p.cut for p in paths):
+        raise Unverifiable("Runner::run: empty path table or a loop")
+    cli_idx = [i for i in range(1, run.arg_count + 1) if run.locals[i] == "runner::basic::Cli"]
+    if len(cli_idx) != 1:
+        raise Unverifiable("Cli parameter of Runner::run")
+
+    def fidx(adt, name):
+        a = F.adts.get(("cucumber", adt))
+        for i, f in enumerate(a["variants"][0]["fields"]):
+            if f["name"] == name:
+                return i
+        raise Unverifiable(f"field {adt}.{name}")
+    cli_field = lambda name: ("field", ("arg", cli_idx[0]), fidx("runner::basic::Cli", name))
+    builder_field = lambda name: ("field", ("arg", 1), fidx("runner::basic::Basic", name))
+
+    def call_of(p, fn):
+        es = [e for e in p.effects if e[0] == "call" and e[1] == fn.name]
+        return es[0] if len(es) == 1 else None
+    return run, paths, {"cli": cli_field, "builder": builder_field, "execute": lambda p: call_of(p, ex_fn), "ingest": lambda p: call_of(p, ing_fn),
+                        "ex_fn": ex_fn, "ing_fn": ing_fn, "cli_arg": ("arg", cli_idx[0]), "D": D}
+
+
+def check_option_merge(R, inst, run, paths, cli_t, builder_t, value_of, what):
+    """On every path the value handed on is the CLI option when that is Some, the builder value otherwise."""
+    ok, why, seen = True, "", set()
+    for p in paths:
+        v = value_of(p)
+        if v is None:
+            ok, why = False, "the value is not handed on on some path"
+            continue
+        out = None
+        for a, o in p.conds:
+            if a == ("discr", cli_t):
+                out = o
+        payload = ("field", ("as", cli_t, "Some"), 0)
+        is_cli = v == cli_t or (isinstance(v, tuple) and len(v) == 4 and v[0] == "variant" and v[2] == "Some" and v[3] == (payload,))
+        if out == "Some":
+            seen.add("cli")
+            if not is_cli:
+                ok, why = False, "with the CLI option given, something else is used"
+        elif out == "None":
+            seen.add("builder")
+            if v != builder_t and not is_cli is True:
+                ok, why = False, "without the CLI option, the builder value is not used"
+            if v != builder_t:
+                ok, why = False, "without the CLI option, the builder value is not used"
+        else:
+            ok, why = False, "the CLI option is not examined"
+    R.check(ok and seen == {"cli", "builder"}, inst, run, what, f"{what} does not hold: {why or 'cases seen ' + str(sorted(seen))}")
